@@ -587,6 +587,20 @@ def bounded(payload):
         parts["exhaustive_shapes_n%d" % n] = len(attrs)
         for inp in exhaustive_inputs(n, attrs):
             run(inp, "exhaustive_n%d" % n)
+    # nested negations (not not c, not not not c, not (x < 0), ...): the guard must hold exactly when its value is true
+    negs = [["!", ["!", "c1"]], ["!", ["!", ["!", "c1"]]], ["!", ["<", "x", 0]], ["!", ["!", ["<", "x", 0]]],
+            ["!", ["!", ["!", ["!", "c2"]]]]]
+    for g in negs:
+        for other in (None, "c1", ["!", "c1"], g):
+            for dep in ((), ("s0",)):
+                for kind2, loops2 in (("assign", None), ("assign", [["i", 0, "n"]]), ("call", None)):
+                    st = [{"id": "s0", "kind": "assign", "deps": [], "guard": other},
+                          {"id": "s1", "kind": kind2, "deps": list(dep), "guard": g}]
+                    if loops2:
+                        st[1]["loops"] = loops2
+                    run({"stmts": st}, "nested_negations")
+                    run({"stmts": [dict(st[1], id="s0", deps=[]), dict(st[0], id="s1", deps=["s0"] if dep else [])]},
+                        "nested_negations")
     for i in range(n_random):
         inp = random_input(rng, rand_max_n, allow_false=(i % 4 == 3))
         run(inp, "random")
